@@ -136,19 +136,19 @@ theorem sendCmd_eval (D : Device σ) (st : St σ) (l reply : Str) (dev' : σ) (a
 
 /-! ### the scripted device, line by line -/
 
-theorem simStep_std (dev : SimSt) (l h : Str) (t : List Str) (hp : dev.parts = [])
-    (hs : stdReply l = some (h :: t)) (hsplit : splitOnNL l = [l]) :
-    (simDevice []).step dev l = ({ dev with parts := t }, h) := by
+theorem simStep_std (na : Bool) (dev : SimSt) (l h : Str) (t : List Str) (hp : dev.parts = [])
+    (hs : stdReplyV na l = some (h :: t)) (hsplit : splitOnNL l = [l]) :
+    (simDevice [] na).step dev l = ({ dev with parts := t }, h) := by
   simp [simDevice, hsplit, simLines, simLine, hp, hs]
 
-theorem simStep_part (dev : SimSt) (l p : Str) (ps : List Str) (hp : dev.parts = p :: ps)
+theorem simStep_part (na : Bool) (dev : SimSt) (l p : Str) (ps : List Str) (hp : dev.parts = p :: ps)
     (hsplit : splitOnNL l = [l]) :
-    (simDevice []).step dev l = ({ dev with parts := ps }, l ++ ['\n'] ++ p) := by
+    (simDevice [] na).step dev l = ({ dev with parts := ps }, l ++ ['\n'] ++ p) := by
   simp [simDevice, hsplit, simLines, simLine, hp]
 
-theorem simStep_plain (dev : SimSt) (l : Str) (hp : dev.parts = []) (hs : stdReply l = none)
+theorem simStep_plain (na : Bool) (dev : SimSt) (l : Str) (hp : dev.parts = []) (hs : stdReplyV na l = none)
     (hc : isChange l = false) (hsplit : splitOnNL l = [l]) :
-    (simDevice []).step dev l = (dev, l ++ ['\n'] ++ prompt) := by
+    (simDevice [] na).step dev l = (dev, l ++ ['\n'] ++ prompt) := by
   simp [simDevice, hsplit, simLines, simLine, hp, hs, hc]
 
 theorem stdReply_change (c : Str) (h : isChange c = true) : stdReply c = none := by
@@ -171,10 +171,21 @@ theorem stdReply_change (c : Str) (h : isChange c = true) : stdReply c = none :=
   unfold stdReply
   simp [h1.1, h1.2.1, h1.2.2.1, h1.2.2.2, h6]
 
-theorem simLine_change (dev : SimSt) (c : Str) (b : Behav) (q : List Behav) (hp : dev.parts = [])
+theorem stdReplyV_of_not_reload (na : Bool) (l : Str) (h : isReloadIn l = false) :
+    stdReplyV na l = stdReply l := by
+  unfold isReloadIn at h
+  cases ha : (l == reloadCmd) <;> cases hb : (l == doReloadCmd) <;> simp_all [stdReplyV]
+
+theorem stdReplyV_change (na : Bool) (c : Str) (h : isChange c = true) : stdReplyV na c = none := by
+  have hr : isReloadIn c = false := by
+    unfold isChange reserved at h
+    cases hx : isReloadIn c <;> simp_all
+  rw [stdReplyV_of_not_reload na c hr]; exact stdReply_change c h
+
+theorem simLine_change (na : Bool) (dev : SimSt) (c : Str) (b : Behav) (q : List Behav) (hp : dev.parts = [])
     (hq : dev.queue = b :: q) (hch : isChange c = true) :
-    simLine [] dev c = ({ dev with queue := q }, replyFor c b) := by
-  simp [simLine, hp, stdReply_change c hch, hch, hq]
+    simLine [] na dev c = ({ dev with queue := q }, replyFor c b) := by
+  simp [simLine, hp, stdReplyV_change na c hch, hch, hq]
 
 /-! ### the re-arm exchange -/
 
@@ -193,27 +204,53 @@ theorem sendReloadCmd_eval (D : Device σ) (st : St σ) (withDo : Bool) (r0 r1 r
   unfold sendReloadCmd issueCmd sendCmd bindM send expectEnd waitPrompt setActive pureM
   simp [expectEnd, hp, h1, a1, hy, h2, a2, h3, a3]
 
-theorem extendReload_sim (st : St SimSt) (hp : st.pend = []) (hparts : st.dev.parts = []) :
-    extendReload (simDevice []) st =
-      (.ok (), { st with pend := [], reloadActive := true,
-                         trace := st.trace ++ [doReloadCmd, lit "n", []] }) := by
+/-- the same exchange on a device that does not ask `Save? [yes/no]` -/
+theorem sendReloadCmd_eval_noask (D : Device σ) (st : St σ) (withDo : Bool) (r0 r2 : Str) (d1 d3 : σ) (k : Nat)
+    (hp : st.pend = [])
+    (h1 : D.step st.dev (if withDo then doReloadCmd else reloadCmd) = (d1, r0))
+    (a1 : altFind [(lit "[yes/no]: ", false), (lit "[confirm]", false)] r0 = some r0.length)
+    (hy : containsLit (lit "[yes/no]") r0 = false)
+    (h3 : D.step d1 [] = (d3, r2))
+    (a3 : promptFind r2 = some (k, r2.length)) :
+    sendReloadCmd D withDo st =
+      (.ok (), { st with dev := d3, pend := [], reloadActive := true,
+                         trace := st.trace ++ [if withDo then doReloadCmd else reloadCmd, []] }) := by
+  unfold sendReloadCmd issueCmd sendCmd bindM send expectEnd waitPrompt setActive pureM
+  simp [expectEnd, hp, h1, a1, hy, h3, a3]
+
+/-- the lines of one re-arm exchange in the two dialogue variants -/
+def rearmLines (na : Bool) : List Str := if na then [doReloadCmd, []] else [doReloadCmd, lit "n", []]
+
+theorem extendReload_sim (na : Bool) (st : St SimSt) (hp : st.pend = []) (hparts : st.dev.parts = []) :
+    extendReload (simDevice [] na) st =
+      (.ok (), { st with pend := [], reloadActive := true, trace := st.trace ++ rearmLines na }) := by
   have hs0 : splitOnNL doReloadCmd = [doReloadCmd] := by decide
   have hsn : splitOnNL (lit "n") = [lit "n"] := by decide
   have hse : splitOnNL ([] : Str) = [[]] := by decide
-  have hstd : stdReply doReloadCmd = some
-      [(lit "do reload in 2\n\nSystem configuration has been modified. Save? [yes/no]: "),
-       lit "Reload reason: Reload Command\nProceed with reload? [confirm]", prompt] := by decide
   have hdev : ({ st.dev with parts := [] } : SimSt) = st.dev := by
     cases hd : st.dev with
     | mk pa qu oc => rw [hd] at hparts; simp at hparts; simp [hparts]
-  have := sendReloadCmd_eval (simDevice []) st true _ _ _ _ _ _ 0 hp
-    (simStep_std st.dev doReloadCmd _ _ hparts hstd hs0) (by decide +kernel) (by decide +kernel)
-    (simStep_part _ (lit "n") _ _ rfl hsn) (by decide +kernel)
-    (simStep_part _ [] _ _ rfl hse) (by decide +kernel)
-  unfold extendReload
-  rw [this, hdev]
-  rfl
-
+  cases na with
+  | false =>
+    have hstd : stdReplyV false doReloadCmd = some
+        [(lit "do reload in 2\n\nSystem configuration has been modified. Save? [yes/no]: "),
+         lit "Reload reason: Reload Command\nProceed with reload? [confirm]", prompt] := by decide
+    have := sendReloadCmd_eval (simDevice [] false) st true _ _ _ _ _ _ 0 hp
+      (simStep_std false st.dev doReloadCmd _ _ hparts hstd hs0) (by decide +kernel) (by decide +kernel)
+      (simStep_part false _ (lit "n") _ _ rfl hsn) (by decide +kernel)
+      (simStep_part false _ [] _ _ rfl hse) (by decide +kernel)
+    unfold extendReload
+    rw [this, hdev]
+    rfl
+  | true =>
+    have hstd : stdReplyV true doReloadCmd = some
+        [(lit "do reload in 2\nProceed with reload? [confirm]"), prompt] := by decide
+    have := sendReloadCmd_eval_noask (simDevice [] true) st true _ _ _ _ 0 hp
+      (simStep_std true st.dev doReloadCmd _ _ hparts hstd hs0) (by decide +kernel) (by decide +kernel)
+      (simStep_part true _ [] _ _ rfl hse) (by decide +kernel)
+    unfold extendReload
+    rw [this, hdev]
+    rfl
 
 /-! ### `cmd` against the scripted device -/
 
@@ -228,8 +265,6 @@ structure Ready (st : St SimSt) : Prop where
   pend : st.pend = []
   active : st.reloadActive = true
   parts : st.dev.parts = []
-
-def rearmLines : List Str := [doReloadCmd, lit "n", []]
 
 theorem cutNL_no_nl (c : Str) (h : '\n' ∉ c) : cutNL c = (c, []) := by
   induction c with
@@ -254,27 +289,27 @@ theorem checkRes_invalid (ci out R : Str) (need : Bool) (h : validOut out = fals
   unfold checkRes; unfold validOut at h; rw [h]; rfl
 
 /-- one single-line command -/
-theorem cmd_one (st : St SimSt) (c : Str) (b : Behav) (q : List Behav) (hr : Ready st)
+theorem cmd_one (na : Bool) (st : St SimSt) (c : Str) (b : Behav) (q : List Behav) (hr : Ready st)
     (hq : st.dev.queue = b :: q) (hc : ChangeCmd c) (hb : CleanBehav b) :
-    let o := cmd (simDevice []) true c st
-    o.2.trace = st.trace ++ c :: (if validOut b.out && needOf b then rearmLines else []) ∧
+    let o := cmd (simDevice [] na) true c st
+    o.2.trace = st.trace ++ c :: (if validOut b.out && needOf b then rearmLines na else []) ∧
     o.2.warns = st.warns ++ warnsOf c b.out ∧
     (validOut b.out = true → o.1 = .ok () ∧ Ready o.2 ∧ o.2.dev.queue = q) ∧
     (validOut b.out = false → ∃ R, o.1 = .abort (.unexpectedOutput c R) ∧ neLines R = neLines b.out) := by
   intro o
   have hsplit : splitOnNL c = [c] := splitOnNL_no_nl c hc.clean.noNL
-  have hstep : (simDevice []).step st.dev c = ({ st.dev with queue := q }, replyFor c b) := by
-    simp [simDevice, hsplit, simLines, simLine_change st.dev c b q hr.parts hq hc.change]
+  have hstep : (simDevice [] na).step st.dev c = ({ st.dev with queue := q }, replyFor c b) := by
+    simp [simDevice, hsplit, simLines, simLine_change na st.dev c b q hr.parts hq hc.change]
   let st1 : St SimSt := { st with dev := { st.dev with queue := q }, pend := replyFor c b, trace := st.trace ++ [c] }
-  have hsend : send (simDevice []) c st = (.ok (), st1) := by
+  have hsend : send (simDevice [] na) c st = (.ok (), st1) := by
     unfold send; simp [hstep, hr.pend, st1]
   obtain ⟨R, hR, hck⟩ := check_reply st1 c b [] hc.clean hb (by simp [st1]) hr.active rfl (fun _ => rfl)
   have hcut := cutNL_no_nl c hc.clean.noNL
-  have ho : o = bindM (send (simDevice []) c) (fun _ =>
+  have ho : o = bindM (send (simDevice [] na) c) (fun _ =>
       bindM (check (cutNL c).1) fun n1 =>
       bindM (if (cutNL c).2.isEmpty then pureM n1
              else bindM (check (cutNL c).2) fun n2 => pureM (if true then n1 || n2 else n2)) fun need =>
-      if need then extendReload (simDevice []) else pureM ()) st := rfl
+      if need then extendReload (simDevice [] na) else pureM ()) st := rfl
   rw [bindM_snd_of_ok _ _ _ () (by rw [hsend]), hsend, hcut] at ho
   simp only [List.isEmpty_nil, if_true] at ho
   cases hv : validOut b.out with
@@ -303,22 +338,22 @@ theorem cmd_one (st : St SimSt) (c : Str) (b : Behav) (q : List Behav) (hr : Rea
       · intro h; cases h
     | true =>
       rw [hn] at ho; simp only [if_true] at ho
-      rw [extendReload_sim _ (by simp) (by simp [st1]; exact hr.parts)] at ho
+      rw [extendReload_sim na _ (by simp) (by simp [st1]; exact hr.parts)] at ho
       rw [ho]
       refine ⟨?_, ?_, ?_, ?_⟩
-      · simp [st1, rearmLines]
+      · simp [st1]
       · simp [st1]
       · intro _; exact ⟨rfl, ⟨rfl, rfl, hr.parts⟩, rfl⟩
       · intro h; cases h
 
 
 /-- one joined two-command line; the first half carries no probing placement -/
-theorem cmd_two (st : St SimSt) (c1 c2 : Str) (b1 b2 : Behav) (q : List Behav) (hr : Ready st)
+theorem cmd_two (na : Bool) (st : St SimSt) (c1 c2 : Str) (b1 b2 : Behav) (q : List Behav) (hr : Ready st)
     (hq : st.dev.queue = b1 :: b2 :: q) (hc1 : ChangeCmd c1) (hc2 : ChangeCmd c2)
     (hb1 : CleanBehav b1) (hb2 : CleanBehav b2) (hnp : probing c1 b1 = false) :
-    let o := cmd (simDevice []) true (c1 ++ '\n' :: c2) st
+    let o := cmd (simDevice [] na) true (c1 ++ '\n' :: c2) st
     o.2.trace = st.trace ++ (c1 ++ '\n' :: c2) ::
-      (if validOut b1.out && validOut b2.out && (needOf b1 || needOf b2) then rearmLines else []) ∧
+      (if validOut b1.out && validOut b2.out && (needOf b1 || needOf b2) then rearmLines na else []) ∧
     o.2.warns = st.warns ++ warnsOf c1 b1.out ++ (if validOut b1.out then warnsOf c2 b2.out else []) ∧
     (validOut b1.out = true → validOut b2.out = true → o.1 = .ok () ∧ Ready o.2 ∧ o.2.dev.queue = q) ∧
     (validOut b1.out = false → ∃ R, o.1 = .abort (.unexpectedOutput c1 R) ∧ neLines R = neLines b1.out) ∧
@@ -327,14 +362,14 @@ theorem cmd_two (st : St SimSt) (c1 c2 : Str) (b1 b2 : Behav) (q : List Behav) (
   intro o
   have hsplit : splitOnNL (c1 ++ '\n' :: c2) = [c1, c2] := by
     rw [splitOnNL_append_nl, splitOnNL_no_nl c1 hc1.clean.noNL, splitOnNL_no_nl c2 hc2.clean.noNL]; rfl
-  have hl1 := simLine_change st.dev c1 b1 (b2 :: q) hr.parts hq hc1.change
-  have hl2 := simLine_change { st.dev with queue := b2 :: q } c2 b2 q hr.parts rfl hc2.change
-  have hstep : (simDevice []).step st.dev (c1 ++ '\n' :: c2) =
+  have hl1 := simLine_change na st.dev c1 b1 (b2 :: q) hr.parts hq hc1.change
+  have hl2 := simLine_change na { st.dev with queue := b2 :: q } c2 b2 q hr.parts rfl hc2.change
+  have hstep : (simDevice [] na).step st.dev (c1 ++ '\n' :: c2) =
       ({ st.dev with queue := q }, replyFor c1 b1 ++ replyFor c2 b2) := by
     simp [simDevice, hsplit, simLines, hl1, hl2]
   let st1 : St SimSt := { st with dev := { st.dev with queue := q }, pend := replyFor c1 b1 ++ replyFor c2 b2,
                                   trace := st.trace ++ [c1 ++ '\n' :: c2] }
-  have hsend : send (simDevice []) (c1 ++ '\n' :: c2) st = (.ok (), st1) := by
+  have hsend : send (simDevice [] na) (c1 ++ '\n' :: c2) st = (.ok (), st1) := by
     unfold send; simp [hstep, hr.pend, st1]
   have hrun2 : runNoHash (replyFor c2 b2) = true := by
     have := runNoHash_reply c2 b2 hc2.clean hb2 []; simpa using this
@@ -349,11 +384,11 @@ theorem cmd_two (st : St SimSt) (c1 c2 : Str) (b1 b2 : Behav) (q : List Behav) (
     cases c2 with
     | nil => exact absurd rfl this
     | cons _ _ => rfl
-  have ho : o = bindM (send (simDevice []) (c1 ++ '\n' :: c2)) (fun _ =>
+  have ho : o = bindM (send (simDevice [] na) (c1 ++ '\n' :: c2)) (fun _ =>
       bindM (check (cutNL (c1 ++ '\n' :: c2)).1) fun n1 =>
       bindM (if (cutNL (c1 ++ '\n' :: c2)).2.isEmpty then pureM n1
              else bindM (check (cutNL (c1 ++ '\n' :: c2)).2) fun n2 => pureM (if true then n1 || n2 else n2)) fun need =>
-      if need then extendReload (simDevice []) else pureM ()) st := rfl
+      if need then extendReload (simDevice [] na) else pureM ()) st := rfl
   rw [bindM_snd_of_ok _ _ _ () (by rw [hsend]), hsend, hcut] at ho
   simp only [hne2, Bool.false_eq_true, if_false, if_true] at ho
   cases hv1 : validOut b1.out with
@@ -405,10 +440,10 @@ theorem cmd_two (st : St SimSt) (c1 c2 : Str) (b1 b2 : Behav) (q : List Behav) (
         · intro _ h; cases h
       | true =>
         rw [hn] at ho; simp only [if_true] at ho
-        rw [extendReload_sim _ (by simp) (by simp [st2, st1]; exact hr.parts)] at ho
+        rw [extendReload_sim na _ (by simp) (by simp [st2, st1]; exact hr.parts)] at ho
         rw [ho]
         refine ⟨?_, ?_, ?_, ?_, ?_⟩
-        · simp [st2, st1, rearmLines]
+        · simp [st2, st1]
         · simp [st2, st1]
         · intro _ _; exact ⟨rfl, ⟨rfl, rfl, hr.parts⟩, rfl⟩
         · intro h; cases h
